@@ -40,7 +40,7 @@ def run(tier: str) -> int:
                                         bound=2, per_level=(1, 20, 10, 3), nrandom=4, procs=8)
     else:
         total, distinct = ec.conc_check(ck, scs, tier, "EventLoopTrace", ec.EL_TRACE_CONSTS, ec.EL_INVS, "evloop-conc",
-                                        bound=3, per_level=(1, 250, 300, 150, 50), nrandom=120, procs=8)
+                                        bound=3, per_level=(1, 200, 220, 110, 40), nrandom=90, procs=8)
     if not quick:
         ec.impl_trace_check(ck, ck.rows)
     res, consts = design.result()
